@@ -65,3 +65,82 @@ Theorem C14_bytes_key : forall v buf, wfb v = true -> top_ok v ->
   comparable_w (enc v) buf = (do k <- comparable_key (normalise v); Ok (buf ++ k)).
 Proof. exact comparable_w_enc. Qed.
 Print Assumptions C14_bytes_key.
+
+(* ---- containers (KeyContainerProofs.v).  The class `key_safe_doc` (CmpKey.v) is delimited against the refuted
+   classes exactly as follows; each bound is shown sharp by a computed witness below.
+     * numbers: every number in the document is `num_key_exactb` (a finite double, an infinity, either zero, the
+       canonical NaN, or an integer that a double represents) — the complement is the class of
+       C14_refuted_integers_beyond_2p53;
+     * marker bytes: a string that sits at nesting depth d >= 1 has every byte > d, and a key of an object that sits at
+       depth d has every byte > d + 1 (a top-level string is unrestricted) — the complement is the class of
+       C14_refuted_marker_collision: a byte <= d (resp. <= d + 1) can be read as the depth marker that follows a
+       shorter string in the other key, and then decides wrongly (C14_marker_bounds_are_sharp: a byte EQUAL to the
+       bound already inverts the order).  Printable text (bytes >= 32) nested at most 31 levels is inside
+       (`key_plain 31 31`, C14_plain_documents_are_in_the_class);
+     * depth: a non-empty container sits at depth <= 254, i.e. the document is nested at most 256 levels — beyond, the
+       saturated marker 255 of a member collides with the marker of its parent's next sibling
+       (C14_depth_bound_is_sharp: a third collision class, equal keys for documents compare tells apart).
+   On that class the key order IS compare's order, and equal keys mean exactly Equal. *)
+From JB Require Import KeyContainerProofs CompareWalk CompareWalkProofs.
+
+Theorem C14_container_keys_order_as_compare : forall a b, key_safe_doc a = true -> key_safe_doc b = true ->
+  exists ka kb, comparable_key a = Ok ka /\ comparable_key b = Ok kb /\ bytes_cmp ka kb = cmp_value a b.
+Proof. exact key_order_containers. Qed.
+Print Assumptions C14_container_keys_order_as_compare.
+
+Theorem C14_container_keys_equal_iff_compare_equal : forall a b, key_safe_doc a = true -> key_safe_doc b = true ->
+  (comparable_key a = comparable_key b <-> cmp_value a b = Eq).
+Proof. exact key_equal_iff_compare_equal. Qed.
+Print Assumptions C14_container_keys_equal_iff_compare_equal.
+
+(* the same at any depth: what is proved by induction is stronger — the order of two keys does not depend on what
+   follows them inside a larger key, as long as that starts with a marker no greater than their own *)
+Theorem C14_keys_order_at_any_depth : forall d a b, key_safe d a = true -> key_safe d b = true ->
+  exists ka kb, key_entry d a = Ok ka /\ key_entry d b = Ok kb /\ bytes_cmp ka kb = cmp_value a b.
+Proof. exact key_order_at_depth. Qed.
+Print Assumptions C14_keys_order_at_any_depth.
+
+(* on the bytes: the two offset-faithful walkers (convert_to_comparable, compare) on the encodings of two documents
+   of the class — both keys are produced and compare returns exactly the byte order of the keys *)
+Theorem C14_bytes_container_keys_order_as_compare : forall a b, wfb a = true -> top_ok a -> wfb b = true -> top_ok b ->
+  key_safe_doc a = true -> key_safe_doc b = true ->
+  exists ka kb, comparable_w (enc a) [] = Ok ka /\ comparable_w (enc b) [] = Ok kb /\
+                compare_w (enc a) (enc b) = Ok (bytes_cmp ka kb).
+Proof. exact key_order_on_encodings. Qed.
+Print Assumptions C14_bytes_container_keys_order_as_compare.
+(* it is enough that the DECODED trees are in the class (decoding makes every NaN the canonical one) *)
+Theorem C14_bytes_container_keys_order_decoded : forall a b, wfb a = true -> top_ok a -> wfb b = true -> top_ok b ->
+  key_safe_doc (normalise a) = true -> key_safe_doc (normalise b) = true ->
+  exists ka kb, comparable_w (enc a) [] = Ok ka /\ comparable_w (enc b) [] = Ok kb /\
+                compare_w (enc a) (enc b) = Ok (bytes_cmp ka kb).
+Proof. exact key_order_on_encodings_norm. Qed.
+Print Assumptions C14_bytes_container_keys_order_decoded.
+
+(* a sufficient condition that is easy to read: nesting at most D <= 255, every string and key byte above D *)
+Theorem C14_plain_documents_are_in_the_class : forall D v, D <= 255 -> key_plain D (N.to_nat D) v = true -> key_safe_doc v = true.
+Proof. exact key_plain_in_class. Qed.
+Print Assumptions C14_plain_documents_are_in_the_class.
+
+(* the class is inhabited by a document with arrays, objects, strings one a prefix of another, an empty string, the
+   three kinds of numbers, booleans, null and empty containers; and by a pair ordered three levels down inside a
+   nested object, after an equal prefix, by a string that is a proper prefix of the other *)
+Theorem C14_container_class_is_satisfiable :
+  key_safe_doc sample_doc = true /\ key_plain 31 31 sample_doc = true /\ wfb sample_doc = true /\
+  key_safe_doc deep_left = true /\ key_safe_doc deep_right = true /\ cmp_value deep_left deep_right = Lt /\
+  (do ka <- comparable_key deep_left; do kb <- comparable_key deep_right; Ok (bytes_cmp ka kb)) = Ok Lt.
+Proof. repeat split; vm_compute; reflexivity. Qed.
+
+Theorem C14_marker_bounds_are_sharp :
+  (let a := VArr [VStr [97]; VNull] in let b := VArr [VStr [97; 1; 6]] in
+   cmp_value a b = Lt /\ (do ka <- comparable_key a; do kb <- comparable_key b; Ok (bytes_cmp ka kb)) = Ok Gt /\
+   key_safe_doc a = true /\ key_safe_doc b = false /\ key_safe_doc (VArr [VStr [97; 2; 6]]) = true) /\
+  (let a := VObj [([97], VNull)] in let b := VObj [([97; 1; 6], VNull)] in
+   cmp_value a b = Lt /\ (do ka <- comparable_key a; do kb <- comparable_key b; Ok (bytes_cmp ka kb)) = Ok Gt /\
+   key_safe_doc a = true /\ key_safe_doc b = false /\ key_safe_doc (VObj [([97; 2; 6], VNull)]) = true).
+Proof. split; [exact string_bound_sharp|exact object_key_bound_sharp]. Qed.
+
+Theorem C14_depth_bound_is_sharp :
+  let a := nest 254 (VArr [VArr []; VArr []]) in let b := nest 254 (VArr [VArr [VArr []]]) in
+  comparable_key a = comparable_key b /\ cmp_value a b = Lt /\ key_safe_doc a = true /\ key_safe_doc b = false.
+Proof. exact depth_bound_sharp. Qed.
+Print Assumptions C14_depth_bound_is_sharp.
